@@ -343,7 +343,7 @@ class Flwdir(object):
             msg = 'Unknown flow direction: {direction}, select from ["up", "down"].'
             raise ValueError(msg)
         paths, dist = core.path(
-            idxs0=idxs,
+            idxs0=self._check_idxs_xy(idxs),
             idxs_nxt=self.idxs_ds if direction == "down" else self.idxs_us_main,
             mask=self._check_data(mask, "mask", optional=True),
             max_length=max_length,
@@ -806,5 +806,5 @@ class Flwdir(object):
         # snap to streams
         streams = self._check_data(streams, "streams", optional=True)
         if streams is not None:
-            idxs = self.snap(idxs=idxs, mask=streams)[0]
+            idxs = core.snap(idxs0=idxs, idxs_nxt=self.idxs_ds, mask=streams, mv=self._mv)[0]
         return idxs
